@@ -740,7 +740,7 @@ class EvolvedMF:
         # Remove BH starting from Heavy to Light
         j = Mr_BH.size
 
-        while M_eject >= 0:
+        while M_eject > 0:
             j -= 1
 
             if j < 0:
